@@ -18,6 +18,13 @@ pub fn clock_override() -> Option<u64> {
     clock.and_then(|clock| clock())
 }
 
+/// A scheduling point without a clock read: calls the installed clock function (if any) and
+/// ignores its value, so a check that owns the schedule through it can also switch threads
+/// between two atomic steps.
+pub fn sched_point() {
+    let _ = clock_override();
+}
+
 type Gate = Arc<dyn Fn(&'static str) -> futures::future::BoxFuture<'static, ()> + Send + Sync>;
 
 static GATE: RwLock<Option<Gate>> = RwLock::new(None);
